@@ -4,7 +4,8 @@
 // stdin, one scenario per line:   <N> tasks=<k> kinds=<i|e|l|b|p …|-> seed=<s> perturb=<0|1>
 //   task kinds: i instant, e "handler error" (prints to stderr, returns), l long (sleeps 20 ms),
 //               b blocks on a std::sync::Barrier of N (the rendezvous), p panics
-//   `w` in kinds is not a task: the submitter waits until everything submitted so far has finished
+//   `w` in kinds is not a task: the submitter waits until everything submitted so far has finished;
+//   `z` is not a task either: the submitter sleeps 300 ms (after a `w`: the whole pool is idle that long)
 //   (tasks=<k> counts tasks only).  Argument `--timeouts-left=<n>` (default 3): after that many
 //   timed-out scenarios the remaining ones are answered `skipped` (bounds the run on a broken tree).
 // stdout, one line per scenario:  N=<N> trace=<ev,ev,…|-> counts=<c0,c1,…|-> status=<ok|timeout> ms=<t>
@@ -119,7 +120,7 @@ fn scenario(line: &str) -> (String, bool) {
     let kinds: Vec<char> = match field(&parts, "kinds=") { Some("-") => vec![], Some(s) => s.chars().collect(), None => return ("bad-op".into(), false) };
     let seed: u64 = field(&parts, "seed=").and_then(|s| s.parse().ok()).unwrap_or(0);
     let pert = field(&parts, "perturb=") == Some("1");
-    if kinds.iter().filter(|c| **c != 'w').count() != k || kinds.iter().any(|c| !"ielbpw".contains(*c)) { return ("bad-op".into(), false); }
+    if kinds.iter().filter(|c| **c != 'w' && **c != 'z').count() != k || kinds.iter().any(|c| !"ielbpwz".contains(*c)) { return ("bad-op".into(), false); }
 
     {
         let mut s = st();
@@ -134,6 +135,12 @@ fn scenario(line: &str) -> (String, bool) {
     let mut timed_out = false;
     let mut t = 0usize;
     for kind in kinds.iter() {
+        if *kind == 'z' {
+            // not a task: the submitter sleeps - after a `w` the WHOLE pool is idle for that long (a worker that gives up
+            // waiting, an idle reaper, a timeout on the channel shows in what comes next)
+            std::thread::sleep(Duration::from_millis(300));
+            continue;
+        }
         if *kind == 'w' {
             let mut s = st();
             while s.finished < t {
